@@ -21,8 +21,17 @@ def run(fn):
 with cf.ThreadPoolExecutor(3) as ex:
     res = dict(zip(("fmt_grid", "str_grid", "int_grid"), ex.map(run, ("fmt_grid", "str_grid", "int_grid"))))
 ok = all(r["status"] == "CONFIRMED" for r in res.values())
+# SAX seam vs the real text path on the concrete corpus (plain interpreter)
+SRC = os.environ.get("XSDATA_SRC", "/repo")
+sp = subprocess.run([PY, "-c", "import sys; sys.path.insert(0, %r); sys.path.insert(0, %r); from harness import seamcheck; n, bad = seamcheck.run(); print('SEAM', n, len(bad)); [print('  MISMATCH', repr(b)[:600]) for b in bad[:3]]" % (VERIF, SRC)],
+                    capture_output=True, text=True, cwd=VERIF)
+seam_line = [ln for ln in sp.stdout.splitlines() if ln.startswith("SEAM")]
+seam_ok = bool(seam_line) and seam_line[0].split()[2] == "0"
+if not seam_ok:
+    print("seam validation failed:", sp.stdout[-1500:], sp.stderr[-1500:])
+ok = ok and seam_ok
 for k, r in res.items():
     if r["status"] != "CONFIRMED":
         print(k, json.dumps(r)[:1500])
-print("model pack grid: " + ", ".join(f"{k}={r['status']}/{r.get('paths')}paths/{r.get('cpu_s')}s" for k, r in res.items()))
+print(("seam corpus: %s comparisons, %s mismatches; " % (seam_line[0].split()[1], seam_line[0].split()[2]) if seam_line else "seam corpus: not run; ") + "model pack grid: " + ", ".join(f"{k}={r['status']}/{r.get('paths')}paths/{r.get('cpu_s')}s" for k, r in res.items()))
 sys.exit(0 if ok else 1)
